@@ -81,12 +81,12 @@ func scenC04(w *vsim.World, spec *vsim.Spec) {
 	}
 	sent := map[string][]tentry{}
 	untrashStarted := map[string]int{}
-	deleteStarted := map[string]int{} // DELETE requests ever started, per hash
+	deleteStarted := map[string]int{}         // DELETE requests ever started, per hash
 	stalledRenameAt := map[string]time.Time{} // hash -> when a writer that had been in flight for >= TTL renamed its temp file into place
-	lastCopyWrite := map[string]time.Time{} // request task id -> time of the latest data-write step of a block write it performed
-	taskStart := map[string]time.Time{}    // request task id (up to the first '.') -> time of its first filesystem step
-	stalledWriter := map[string]bool{}     // hash -> a PUT that had been in flight for >= TTL renamed its copy into place
-	twSeen := map[string][]int64{} // hash -> stored mtimes the trash worker saw when it stat'ed the block
+	lastCopyWrite := map[string]time.Time{}   // request task id -> time of the latest data-write step of a block write it performed
+	taskStart := map[string]time.Time{}       // request task id (up to the first '.') -> time of its first filesystem step
+	stalledWriter := map[string]bool{}        // hash -> a PUT that had been in flight for >= TTL renamed its copy into place
+	twSeen := map[string][]int64{}            // hash -> stored mtimes the trash worker saw when it stat'ed the block
 	// operations in flight (maintained by the client tasks) and their values at the instant the
 	// last filesystem step was granted: a directory change observed now was made by that step
 	liveDelete := map[string]int{} // hash -> number of DELETE requests in flight
